@@ -16,10 +16,18 @@ evaluation order (arguments before the call, short-circuit operators as branches
  * callees in NO_RAISE (total constructors evaluated between a push and its protection) are recorded in
    `noRaise`; the theorems assume exactly those sites do not raise.
 
+`@contextmanager` generators (`hide_attrs`, `route_prefix_context`, and any module-level one of the same file that a
+listed function enters with `with` — discovered on the fly) become Lean functions of the with-body: the body is
+substituted at the single `yield` statement, which is exactly what contextlib does (enter = the statements before the
+`yield`; a body that ends normally resumes after it; a body that raises has the exception thrown AT the `yield`, so
+only a try/finally, try/except or `with` around the `yield` still runs).  Refused (`unknown`): several yields, a
+yield in a loop or in an except/finally clause, and a `return` inside the with-body when the generator has code after
+the `yield` outside a `finally` (contextlib would still run it, the substitution would not).
+
 Anything with an unexpected shape (unknown statement kind, break/continue, `manager.clear`, a context manager
-that is not in WITH, an `__exit__` returning a value, a generator context manager whose `yield` is not the last
-statement of a try/finally that ends the function, …) is emitted as `.unknown`, which has no analysis verdict,
-so every obligation over that function fails.
+that is neither in WITH nor a local generator, an `__exit__` returning a value, …) is emitted as `.unknown`, which has
+no analysis verdict, so every obligation over that function fails.  `modelledOwners` lists every translated function;
+Props/C13 decides that every push/pop owner found by the whole-package scan is one of them.
 """
 import ast, os
 
@@ -170,6 +178,19 @@ def own_nodes(fn):
     return out
 
 
+def own_nodes_of(st):
+    """nodes below statement `st` that are not inside a nested def/class/lambda"""
+    out, stack = [], [c for c in ast.iter_child_nodes(st)
+                      if not isinstance(c, (ast.FunctionDef, ast.AsyncFunctionDef, ast.ClassDef, ast.Lambda))]
+    while stack:
+        n = stack.pop()
+        out.append(n)
+        for c in ast.iter_child_nodes(n):
+            if not isinstance(c, (ast.FunctionDef, ast.AsyncFunctionDef, ast.ClassDef, ast.Lambda)):
+                stack.append(c)
+    return out
+
+
 class Tr:
     """translation state shared by all functions of one run"""
 
@@ -179,6 +200,39 @@ class Tr:
         self.unknowns = []
         self.fn = None
         self.counts = {}
+        self.tree = None         # module AST of the function being translated (to find local generator CMs)
+        self.file = None
+        self.gen_plain = {}      # lean name of a generator CM -> it has code after the yield outside finally
+        self.auto = {}           # (file, name) -> lean name of a generator CM discovered at a `with`
+        self.auto_defs = []      # (lean, qual, True, term) to be emitted before the function that uses them
+
+    def gen_cm(self, fn, qual, lean):
+        """translate an @contextmanager generator as a Lean function of the with-body"""
+        saved = self.fn
+        self.fn = qual
+        ok, why, plain = gen_cm_info(fn)
+        if not ok:
+            term = self.unknown('generator context manager: ' + why)
+        else:
+            term = self.block(_body(fn), yield_body='body')
+        self.gen_plain[lean] = plain
+        self.fn = saved
+        return (lean, qual, True, term)
+
+    def local_gen_cm(self, nm):
+        """`with nm(...)` where nm is a module-level @contextmanager function of the same file"""
+        key = (self.file, nm)
+        if key in self.auto:
+            return self.auto[key]
+        if self.tree is None:
+            return None
+        for n in self.tree.body:
+            if isinstance(n, ast.FunctionDef) and n.name == nm and _is_contextmanager(n):
+                lean = 'gen_' + ''.join(c if c.isalnum() else '_' for c in (self.file[:-3] + '_' + nm))
+                self.auto[key] = lean
+                self.auto_defs.append(self.gen_cm(n, nm, lean))
+                return lean
+        return None
 
     def site(self, kind):
         key = (self.fn, kind)
@@ -285,8 +339,12 @@ class Tr:
             if isinstance(s.value, ast.Yield):
                 if yb is None:
                     return self.unknown('yield outside a known generator context manager')
-                return yb
+                return self.seq(self.expr(s.value.value) + [yb])
             return self.seq(self.expr(s.value))
+        if isinstance(s, (ast.Assign, ast.AnnAssign)) and isinstance(s.value, ast.Yield):
+            if yb is None:
+                return self.unknown('yield outside a known generator context manager')
+            return self.seq(self.expr(s.value.value) + [yb])
         if isinstance(s, (ast.Assign, ast.AugAssign, ast.AnnAssign)):
             targets = s.targets if isinstance(s, ast.Assign) else [s.target]
             pre = []
@@ -339,22 +397,31 @@ class Tr:
             if not isinstance(it, ast.Call):
                 return self.unknown('with over a non-call')
             nm = name(it.func)
+            auto = None
             if nm not in WITH:
-                return self.unknown('with ' + nm)
+                auto = self.local_gen_cm(nm) if isinstance(it.func, ast.Name) else None
+                if auto is None:
+                    return self.unknown('with ' + nm)
             pre = []
             for a in it.args:
                 pre += self.expr(a)
             for k in it.keywords:
                 pre += self.expr(k.value)
             body = self.block(s.body, yb)
-            w = WITH[nm]
+            w = WITH[nm] if auto is None else ('gen', None)
+            if w[0] == 'gen':
+                lean = auto or LEAN[w[1]]
+                returns = any(isinstance(n, ast.Return) for st in s.body for n in [st] + own_nodes_of(st))
+                if returns and self.gen_plain.get(lean, True):
+                    return self.unknown('return inside `with %s` whose generator has code after the yield outside finally' % nm)
+                return self.seq(pre + ['(%s %s)' % (lean, body)])
             if w[0] == 'class':
                 pre.append('(.call %d)' % self.site(nm))
                 return self.seq(pre + ['(withCM %s_enter %s %s_exit)' % (w[1], body, w[1])])
             if w[0] == 'ret':
                 pre.append('(.scope %s)' % LEAN[w[1]])
                 return self.seq(pre + ['(withCM %s_enter %s %s_exit)' % (w[2], body, w[2])])
-            return self.seq(pre + ['(%s %s)' % (LEAN[w[1]], body)])
+            return self.unknown('with ' + nm)
         if isinstance(s, (ast.FunctionDef, ast.ClassDef, ast.Import, ast.ImportFrom, ast.Pass, ast.Global, ast.Nonlocal)):
             return '.skip'
         if isinstance(s, ast.Assert):
@@ -374,22 +441,68 @@ def _body(fn):
     return [s for s in fn.body if not (isinstance(s, ast.Expr) and isinstance(s.value, ast.Constant))]
 
 
-def _gen_cm_shape_ok(fn):
-    """@contextmanager whose single `yield` is a statement of the try-body of a try/finally (no handlers)
-    that is the last statement of the function"""
-    body = _body(fn)
-    if not body or not isinstance(body[-1], ast.Try):
-        return False
-    t = body[-1]
-    if t.handlers or t.orelse or not t.finalbody:
-        return False
-    ys = [n for n in ast.walk(fn) if isinstance(n, (ast.Yield, ast.YieldFrom))]
-    if len(ys) != 1:
-        return False
-    if not any(isinstance(st, ast.Expr) and st.value is ys[0] for st in t.body):
-        return False
-    decos = [name(d) for d in fn.decorator_list]
-    return decos in (['contextmanager'], ['contextlib.contextmanager'])
+def _is_contextmanager(fn):
+    return [name(d) for d in fn.decorator_list] in (['contextmanager'], ['contextlib.contextmanager'])
+
+
+def _yield_stmt(st):
+    """the Yield node when `st` is `yield …` or `x = yield …`"""
+    if isinstance(st, ast.Expr) and isinstance(st.value, ast.Yield):
+        return st.value
+    if isinstance(st, (ast.Assign, ast.AnnAssign)) and isinstance(st.value, ast.Yield):
+        return st.value
+    return None
+
+
+def gen_cm_info(fn):
+    """(ok, why, plain_post) for an @contextmanager generator.
+
+    `with g(): body` runs the generator up to its single `yield`, then the body; a body that ends normally resumes
+    the generator after the `yield`, a body that raises has the exception thrown at the `yield` (so only what a
+    try/finally, try/except or `with` around the `yield` provides still runs) — i.e. the body substituted at the
+    `yield` statement.  ok = that substitution is well defined (one `yield`, a statement of its own, not in a loop,
+    not in an except/finally clause).  plain_post = some code after the `yield` is NOT in a `finally` clause or a
+    context-manager exit (it is skipped when the body raises; it still runs when the body `return`s, which the
+    substitution would skip — the caller refuses that combination)."""
+    if not _is_contextmanager(fn):
+        return False, 'not decorated with contextmanager', False
+    ys = [n for n in own_nodes(fn) if isinstance(n, (ast.Yield, ast.YieldFrom))]
+    if len(ys) != 1 or isinstance(ys[0], ast.YieldFrom):
+        return False, '%d yields' % len(ys), False
+    y = ys[0]
+    res = {'plain': False, 'found': False, 'bad': None}
+
+    def contains(st):
+        return any(n is y for n in ast.walk(st))
+
+    def walk(stmts):
+        for i, st in enumerate(stmts):
+            if not contains(st):
+                continue
+            if _yield_stmt(st) is y:
+                res['found'] = True
+            elif isinstance(st, ast.With):
+                walk(st.body)
+            elif isinstance(st, ast.If):
+                walk(st.body if any(contains(x) for x in st.body) else st.orelse)
+            elif isinstance(st, ast.Try):
+                if any(contains(x) for x in st.body):
+                    walk(st.body)
+                    if st.orelse:
+                        res['plain'] = True
+                elif any(contains(x) for x in st.orelse):
+                    walk(st.orelse)
+                else:
+                    res['bad'] = 'yield inside an except/finally clause'
+            else:
+                res['bad'] = 'yield inside %s' % type(st).__name__
+            if any(not isinstance(x, ast.Pass) for x in stmts[i + 1:]):
+                res['plain'] = True
+            return
+    walk(_body(fn))
+    if res['bad'] or not res['found']:
+        return False, res['bad'] or 'yield is not a statement of its own', False
+    return True, '', res['plain']
 
 
 def _exit_ok(fn):
@@ -454,20 +567,21 @@ def generate(src_root):
     for f, qual, lean in FUNCS:
         fn = fnnodes[qual]
         tr.fn = qual
+        tr.tree, tr.file = trees[f], f
         if fn is None:
-            defs.append((lean, qual, False, tr.unknown('function not found')))
+            tr.gen_plain[lean] = True
+            defs.append((lean, qual, qual in GEN_CMS, tr.unknown('function not found')))
             continue
         body = _body(fn)
         if qual in GEN_CMS:
-            if not _gen_cm_shape_ok(fn):
-                defs.append((lean, qual, True, tr.unknown('generator context manager of unexpected shape')))
-            else:
-                defs.append((lean, qual, True, tr.block(body, yield_body='body')))
+            defs.append(tr.gen_cm(fn, qual, lean))
             continue
         if qual.endswith('.__exit__') and not _exit_ok(fn):
             defs.append((lean, qual, False, tr.unknown('__exit__ returns a value')))
             continue
         term = tr.block(body)
+        defs.extend(tr.auto_defs)
+        tr.auto_defs = []
         if qual == 'Router.request_context':
             last = body[-1] if body else None
             if not (isinstance(last, ast.Return) and isinstance(last.value, ast.Call) and name(last.value.func) == 'RequestContext'):
@@ -531,6 +645,13 @@ def generate(src_root):
     L.append(',\n'.join('  "%s"' % o for o in owners))
     L.append(']')
     L.append('')
+    modelled = ['%s:%s' % (f, q) for f, q, _l in FUNCS] + ['%s:%s' % k for k in tr.auto]
+    L.append('/-- the functions whose skeletons are translated above: the listed ones and every module-level')
+    L.append('`@contextmanager` helper a listed function enters with `with` (decided balanced around any body below) -/')
+    L.append('def modelledOwners : List String := [')
+    L.append(',\n'.join('  "%s"' % o for o in modelled))
+    L.append(']')
+    L.append('')
     L.append('/-- composite scopes: the paired halves of an open/close API around one user body -/')
     L.append('def with_Configurator : Stmt := withCM Configurator_enter (.call %d) Configurator_exit' % u_with_cfg)
     L.append('def with_route_prefix_context : Stmt := route_prefix_context (.call %d)' % u_rpc)
@@ -548,6 +669,7 @@ def generate(src_root):
            'Configurator_commit', 'Configurator_action', 'Configurator_include', 'Configurator_make_wsgi_app',
            'with_Configurator', 'with_route_prefix_context', 'with_RequestContext', 'begin_then_end',
            'get_root_then_closer']
+    bal += ['(%s (.call %d))' % (lean, u_rc) for lean in tr.auto.values()]
     L.append('/-- entry points that must leave the stack at the depth they found it, on every path -/')
     L.append('def entryPoints : List (String × Stmt) := [')
     L.append(',\n'.join('  ("%s", %s)' % (b.strip('()').split(' ')[0], b) for b in bal))
